@@ -7,6 +7,7 @@ import (
 	"context"
 	"fmt"
 	"net"
+	"runtime/debug"
 	"sort"
 	"strconv"
 	"sync"
@@ -49,6 +50,9 @@ import (
 //	    [7, lastID, code, 0]              GOAWAY from the server
 //	    [6, 0, 0, 0]                      PING from the server
 //	    [8, 0, 0, 0]                      connection closed by the server
+//	    [66, sid, 0, 0]                   a goroutine of the server transport panicked while this op
+//	                                      (on stream sid) was processed; always the first event of the
+//	                                      op; nothing is executed afterwards (HandleStreams is gone)
 //	    [9, sid, timeoutSet, readDone, nkeys, nvals, mlen, method..., alen|-1, authority...]
 //	                                      handler invoked
 var vServerHeadersNames = map[int64]string{
@@ -135,7 +139,7 @@ func vServerHeadersRun(cfg []int64, ops [][]int64) (obs [][]int64, nt bool, tags
 	guard := func() {
 		if p := recover(); p != nil {
 			panicMu.Lock()
-			panicked = p
+			panicked = fmt.Sprintf("%v\n%s", p, debug.Stack())
 			panicMu.Unlock()
 		}
 	}
@@ -238,7 +242,7 @@ func vServerHeadersRun(cfg []int64, ops [][]int64) (obs [][]int64, nt bool, tags
 	}
 
 	tagset := map[string]bool{}
-	dead, closed, post := false, false, 0
+	dead, closed, crashed, post := false, false, false, 0
 	snapshot := func() []int64 {
 		t.maxStreamMu.Lock()
 		ms := int64(t.maxStreamID)
@@ -252,7 +256,7 @@ func vServerHeadersRun(cfg []int64, ops [][]int64) (obs [][]int64, nt bool, tags
 		return []int64{na, h, ms}
 	}
 	for _, op := range ops {
-		if closed || (dead && post >= vServerHeadersBudget) || len(op) < 2 {
+		if closed || crashed || (dead && post >= vServerHeadersBudget) || len(op) < 2 {
 			obs = append(obs, snapshot())
 			continue
 		}
@@ -339,7 +343,31 @@ func vServerHeadersRun(cfg []int64, ops [][]int64) (obs [][]int64, nt bool, tags
 		}
 		flush()
 		synctest.Wait()
+		// Is the reader goroutine still there?  A panic inside HandleStreams first runs its deferred
+		// wait for the loopy writer, so the recover of this driver only sees it once the connection
+		// is torn down; until then the panicking reader simply stops reading.  Probe: a SETTINGS ack
+		// (ignored by handleSettings) written from a goroutine must have been consumed at the next
+		// quiescent point, unless the connection is closed (then the write fails at once).
+		probeDone := make(chan struct{})
+		go func() {
+			defer close(probeDone)
+			cconn.Write([]byte{0, 0, 0, 4, 1, 0, 0, 0, 0})
+		}()
+		synctest.Wait()
+		wedged := false
+		select {
+		case <-probeDone:
+		default:
+			wedged = true
+		}
 		ev := cli.take()
+		panicMu.Lock()
+		if (panicked != nil || wedged) && !crashed {
+			crashed = true
+			tagset["panic"] = true
+			ev = append([]int64{66, op[1], 0, 0}, ev...)
+		}
+		panicMu.Unlock()
 		for i := 0; i+3 < len(ev); {
 			switch ev[i] {
 			case 7:
@@ -362,6 +390,8 @@ func vServerHeadersRun(cfg []int64, ops [][]int64) (obs [][]int64, nt bool, tags
 			case 3:
 				tagset["rst-"+strconv.Itoa(int(ev[i+2]))] = true
 				i += 4
+			case 66:
+				i += 4
 			default:
 				i += 4
 			}
@@ -371,9 +401,12 @@ func vServerHeadersRun(cfg []int64, ops [][]int64) (obs [][]int64, nt bool, tags
 	panicMu.Lock()
 	p := panicked
 	panicMu.Unlock()
-	if p != nil {
+	if p != nil && !crashed {
+		// a panic that no op observed (it surfaced after the last quiescent point)
 		panic(fmt.Sprintf("vServerHeaders: panic inside the server transport: %v", p))
 	}
+	// a panic that an op observed is reported through event 66 (clauses 11 / 12); the recover of
+	// the reader's panic usually runs only during the teardown (deferred above)
 	if zw {
 		tagset["zero-window"] = true
 	}
@@ -616,6 +649,15 @@ func vServerHeadersGen(r *vRand, tier string, idx int) ([]int64, [][]int64) {
 		ops = append(ops, good(1), good(3), []int64{9, 1, 1}, []int64{9, 3, 100}, good(5), []int64{4, 1, 1}, good(7),
 			[]int64{2, 1}, good(9), []int64{6, 3}, good(11), []int64{3, 9}, good(13), []int64{9, 13, 7}, []int64{10, 13, 11},
 			[]int64{10, 13, 1}, good(15), []int64{9, 11, 0}, []int64{10, 11, 5}, good(17), good(19))
+	case 18:
+		// a second END_STREAM for a stream that has finished but is still tracked (its response waits
+		// for window): dropped by recvBuffer.put (before 1b83f43: nil-pointer panic of the reader)
+		cfg = []int64{1, 4096, 0, 1}
+		ops = append(ops, good(1), []int64{4, 1, 1}, []int64{9, 1, 10}, []int64{4, 1, 1}, good(3))
+	case 19:
+		// the same with both END_STREAMs after the finish; empty DATA without END_STREAM is harmless
+		cfg = []int64{2, 4096, 0, 1}
+		ops = append(ops, good(1), []int64{9, 1, 10}, []int64{4, 1, 0}, []int64{4, 1, 1}, []int64{4, 1, 0}, good(3), []int64{4, 1, 1}, good(5), []int64{3, 3})
 	case 17:
 		// the same requests on a connection with the default window: nothing ever waits
 		cfg = []int64{1, 4096, 0, 0}
